@@ -148,6 +148,53 @@ func readProgram(prop string, w *simkit.World, fs cafs.Fs, key cafs.Key, content
 				return Viol(prop, "wrong-bytes", "WriteTo-WriterAt", who, "WriteTo(io.WriterAt) delivered %d bytes (reported %d), stored %d; equal=%v", len(mw.b), n, len(content), bytes.Equal(mw.b, content))
 			}
 			w.Probe("writeto-writerat")
+		case 4: // several ReadAt calls on ONE reader (io.ReaderAt: its cache / prefetch bookkeeping persists between calls)
+			r, err := fs.GetAt(bg, key)
+			if err != nil {
+				if faulty {
+					continue
+				}
+				return Viol(prop, "read-error", "GetAt", who, "GetAt of a stored object failed: %v", err)
+			}
+			x := uint64(op[1])*2654435761 + 12345
+			for j := 0; j < op[2]; j++ {
+				x = x*6364136223846793005 + 1442695040888963407
+				var off, ln int
+				switch (x >> 60) % 4 {
+				case 0:
+					off = int((x >> 20) % uint64(len(content)+L+2))
+				case 1:
+					off = int((x>>20)%7)*L + int((x>>40)%3) - 1
+				case 2:
+					off = len(content) - int((x>>20)%uint64(L+1))
+				default:
+					off = int((x >> 20) % uint64(len(content)+1))
+				}
+				if off < 0 {
+					off = 0
+				}
+				lens := []int{0, 1, L - 1, L, L + 1, 2*L + 1, int((x>>8)%uint64(3*L)) + 1}
+				ln = lens[(x>>4)%uint64(len(lens))]
+				buf := make([]byte, ln)
+				n, err := r.ReadAt(buf, int64(off))
+				if err != nil && err != io.EOF {
+					if faulty {
+						break
+					}
+					return Viol(prop, "read-error", "ReadAt-session", who, "call %d on one reader: ReadAt(len %d, off %d) on %d bytes failed: %v", j, ln, off, len(content), err)
+				}
+				want := 0
+				if off < len(content) {
+					want = min(ln, len(content)-off)
+				}
+				if n != want {
+					return Viol(prop, "readat-count", "ReadAt-session", who, "call %d on one reader: ReadAt(len %d, off %d) on %d bytes (leaf %d) returned n=%d, want %d", j, ln, off, len(content), L, n, want)
+				}
+				if n > 0 && !bytes.Equal(buf[:n], content[off:off+n]) {
+					return Viol(prop, "wrong-bytes", "ReadAt-session", who, "call %d on one reader: ReadAt(len %d, off %d) returned bytes that differ from the stored content (len %d, leaf %d)", j, ln, off, len(content), L)
+				}
+			}
+			w.Probe("readat-session")
 		}
 	}
 	return nil
@@ -157,8 +204,10 @@ func drawReadOps(t *simkit.Tape, n int, size int, leaf uint32) [][3]int {
 	L := int(leaf)
 	ops := make([][3]int, n)
 	for i := range ops {
-		k := t.Pick(0, 1, 1, 1, 2, 3)
+		k := t.Pick(0, 1, 1, 1, 2, 3, 4)
 		switch k {
+		case 4:
+			ops[i] = [3]int{4, t.Choose(1 << 16), t.Range(2, 6)}
 		case 0:
 			ops[i] = [3]int{0, t.Choose(8), t.Choose(4)}
 		case 1:
